@@ -266,6 +266,9 @@ func checkC02(e *RunEnv) *CheckResult {
 		if e.Thorough() {
 			cases = append(cases, Case{Base: base, BaseName: "S0", BaseSeed: seedS0(), Steps: hugeDirSteps(150)})
 		}
+		for _, st := range nestedTwinCases() {
+			cases = append(cases, Case{Base: base, BaseName: "S0", BaseSeed: seedS0(), Steps: st})
+		}
 		// identity: every (local?, global?) x (name, e-mail) combination that is complete
 		var idc []Case
 		initOnly := x.BuildState([]Step{Run("init")})
@@ -297,6 +300,28 @@ func checkC02(e *RunEnv) *CheckResult {
 		cov["states"] = x.States + sweep
 	})
 	return res
+}
+
+// nestedTwinCases: a nested directory that has the name of a top-level directory, each of the two changed while
+// the other stays as it is; and pure removals beneath a directory that leave as many files as the directory
+// has direct children (d/f, d/s/x, d/s/y minus d/s/y), or remove the last file of a nested directory.
+func nestedTwinCases() [][]Step {
+	base := []Step{Write("lib/a.txt", "lib a\n"), Write("src/lib/a.txt", "src lib a\n"), Write("src/main.go", "main\n"),
+		Write("d/f", "f\n"), Write("d/s/x", "x\n"), Write("d/s/y", "y\n"), Write("d/t/only", "only\n"),
+		Run("add", "lib", "src", "d"), Run("commit", "-m", "base")}
+	tails := [][]Step{
+		{Write("src/lib/b.txt", "new in nested\n"), Run("add", "src"), Run("commit", "-m", "nested changed, top-level twin untouched")},
+		{Write("lib/b.txt", "new in top\n"), Run("add", "lib"), Run("commit", "-m", "top-level changed, nested twin untouched")},
+		{Run("rm", "d/s/y"), Run("commit", "-m", "one of two nested files removed")},
+		{Run("rm", "d/t/only"), Run("commit", "-m", "nested directory emptied")},
+		{Run("rm", "d/f"), Run("commit", "-m", "direct child removed"), Run("rm", "d/s"), Run("commit", "-m", "nested directory removed")},
+		{Run("rm", "d/s/x"), Write("d/s/z", "z\n"), Run("add", "d/s/z"), Run("commit", "-m", "one removed, one added: same count")},
+	}
+	var out [][]Step
+	for _, t := range tails {
+		out = append(out, append(append([]Step{}, base...), t...))
+	}
+	return out
 }
 
 // hugeDirSteps: n files in one directory plus names at the length limit and two identical directories;
